@@ -1,4 +1,7 @@
+pub mod c02;
+pub mod c03;
 pub mod c12;
 pub mod c13;
+pub mod c14;
 pub mod c15;
 pub mod c16;
